@@ -11,6 +11,7 @@ PROP=$(python3 -c "import json;print(json.load(open('$DST/meta.json'))['property
 TIER=quick
 /verif/tools/mutcheck.sh "$DST/patch.diff" "$PROP" quick > /var/tmp/seedcheck_$NAME.log 2>&1; RC=$?
 if [ $RC = 0 ]; then TIER=thorough; /verif/tools/mutcheck.sh "$DST/patch.diff" "$PROP" thorough > /var/tmp/seedcheck_$NAME.log 2>&1; RC=$?; fi
+if [ $RC != 0 ] && [ $RC != 1 ]; then echo "INCONCLUSIVE (exit $RC): result.json left as it was; see /var/tmp/seedcheck_$NAME.log"; exit 2; fi
 python3 - "$DST" "$PROP" "$TIER" "$RC" "/var/tmp/seedcheck_$NAME.log" <<'PY'
 import json,sys,re
 dst,prop,tier,rc,log=sys.argv[1:6]
